@@ -28,8 +28,8 @@
               removed.  With the option IgnoreDeviateNotSupported the statement does nothing.
      any other argument, `max-elements 0`, a type that does not resolve: not a valid deviate statement.
 
-   Whether a min/max-elements STATEMENT is present cannot be read off an entry (ListAttr holds 0 /
-   MaxUint64 for an absent one), so the reference state carries that as two flags next to the node.
+   Whether a min/max-elements STATEMENT is present is part of the node's list attributes (two flags
+   next to the two values: written in the sources, or put there by an earlier deviate).
 
    Statements of one deviation apply in written order ([spec_apply_all]); deviations of a module apply
    in written order to the forest ([spec_module]); "removed" and "attributes replaced" on forests are
@@ -41,10 +41,7 @@
        one is still reported; a second not-supported finds nothing to remove and must be reported;
      * `deviate delete { default v; }` on a leaf-list removes that value (RFC).  The library refuses
        this with an error instead, which "or are reported" permits: [refused] marks the case and the
-       agreement theorem excludes it by hypothesis;
-     * [known_delete_absent_bound]: the reference demands an error for deleting a bound whose
-       statement is absent ("deleting ... an element bound that is absent"); the library cannot see
-       absence.  KNOWN_FINDINGS sig=delete.absent-bound; guard of the _partial agreement theorems. *)
+       agreement theorem excludes it by hypothesis; *)
 From Coq Require Import List NArith Bool.
 From GY Require Import Model.Schema.
 Import ListNotations.
@@ -75,24 +72,24 @@ Definition named_props (dv : deviate) : list prop :=
 
 (* ------------------------------------------------------------------ the reference state of a target *)
 Record tstate := { ts_node : entry;
-                   ts_min : bool;          (* a min-elements statement is present *)
-                   ts_max : bool;          (* a max-elements statement is present *)
                    ts_removed : bool }.    (* declared not-supported: no longer in its parent *)
 
-Definition init_state (e : entry) (has_min has_max : bool) : tstate :=
-  {| ts_node := e; ts_min := has_min; ts_max := has_max; ts_removed := false |}.
+Definition init_state (e : entry) : tstate := {| ts_node := e; ts_removed := false |}.
 
-Definition with_node (st : tstate) (e : entry) : tstate :=
-  {| ts_node := e; ts_min := ts_min st; ts_max := ts_max st; ts_removed := ts_removed st |}.
+Definition with_node (st : tstate) (e : entry) : tstate := {| ts_node := e; ts_removed := ts_removed st |}.
 
 (* lists and leaf-lists are the nodes that have element bounds *)
 Definition bounded (e : entry) : bool := isList e || isLeafList e.
-Definition min_of (e : entry) : N := match e_la e with Some (mn, _) => mn | None => 0 end.
-Definition max_of (e : entry) : N := match e_la e with Some (_, mx) => mx | None => MaxUint64 end.
-Definition with_min (e : entry) (n : N) : entry :=
-  match e_la e with Some (_, mx) => set_la e (Some (n, mx)) | None => e end.
-Definition with_max (e : entry) (n : N) : entry :=
-  match e_la e with Some (mn, _) => set_la e (Some (mn, n)) | None => e end.
+Definition min_of (e : entry) : N := match e_la e with Some (mn, _, _) => mn | None => 0 end.
+Definition max_of (e : entry) : N := match e_la e with Some (_, mx, _) => mx | None => MaxUint64 end.
+(* a min-elements / max-elements statement is present *)
+Definition min_written (e : entry) : bool := match e_la e with Some (_, _, (h, _)) => h | None => false end.
+Definition max_written (e : entry) : bool := match e_la e with Some (_, _, (_, h)) => h | None => false end.
+(* the bound gets a value and the statement is there ([w] = true) or gone ([w] = false) *)
+Definition with_min (e : entry) (n : N) (w : bool) : entry :=
+  match e_la e with Some (_, mx, (_, hx)) => set_la e (Some (n, mx, (w, hx))) | None => e end.
+Definition with_max (e : entry) (n : N) (w : bool) : entry :=
+  match e_la e with Some (mn, _, (hm, _)) => set_la e (Some (mn, n, (hm, w))) | None => e end.
 
 Fixpoint remove_value (d : str) (l : list str) : list str :=
   match l with
@@ -117,12 +114,10 @@ Definition spec_set (replace : bool) (st : tstate) (p : prop) : option tstate :=
            | _ :: _ => None                                   (* adding a default where one exists *)
            end
   | PMin n =>
-      if bounded e
-      then Some {| ts_node := with_min e n; ts_min := true; ts_max := ts_max st; ts_removed := ts_removed st |}
+      if bounded e then Some (with_node st (with_min e n true))
       else None                                               (* element bound on a non-list *)
   | PMax n =>
-      if bounded e
-      then Some {| ts_node := with_max e n; ts_min := ts_min st; ts_max := true; ts_removed := ts_removed st |}
+      if bounded e then Some (with_node st (with_max e n true))
       else None
   | PUnits u => Some (with_node st (set_units e u))
   | PType t => Some (with_node st (set_ty e (Some t)))        (* resolvable: see props_valid *)
@@ -143,12 +138,12 @@ Definition spec_unset (st : tstate) (p : prop) : option tstate :=
            | [] => None                                       (* absent *)
            end
   | PMin n =>
-      if bounded e && ts_min st && (min_of e =? n)
-      then Some {| ts_node := with_min e 0; ts_min := false; ts_max := ts_max st; ts_removed := ts_removed st |}
-      else None
+      if bounded e && min_written e && (min_of e =? n)
+      then Some (with_node st (with_min e 0 false))
+      else None                                               (* absent or different *)
   | PMax n =>
-      if bounded e && ts_max st && (max_of e =? n)
-      then Some {| ts_node := with_max e MaxUint64; ts_min := ts_min st; ts_max := false; ts_removed := ts_removed st |}
+      if bounded e && max_written e && (max_of e =? n)
+      then Some (with_node st (with_max e MaxUint64 false))
       else None
   | PUnits _ | PType _ => Some st                             (* outside the claim, see in_scope *)
   end.
@@ -183,7 +178,7 @@ Definition spec_deviate (ignore removable : bool) (st : tstate) (dv : deviate) :
          | DKNotSupported =>
              if ignore then Some st
              else if removable && negb (ts_removed st)
-             then Some {| ts_node := ts_node st; ts_min := ts_min st; ts_max := ts_max st; ts_removed := true |}
+             then Some {| ts_node := ts_node st; ts_removed := true |}
              else None
          | _ => spec_edits k st (named_props dv)
          end
@@ -215,21 +210,10 @@ Definition refused (st : tstate) (dv : deviate) : bool :=
   | _, _ => false
   end.
 
-(* KNOWN_FINDINGS sig=delete.absent-bound: a bound whose statement is absent is deleted by naming the
-   value an absent statement stands for; the reference demands an error, the library sees a match *)
-Definition known_delete_absent_bound (st : tstate) (dv : deviate) : bool :=
-  match kind_of (dv_kind dv) with
-  | Some DKDelete =>
-      bounded (ts_node st) &&
-      ((match dv_min dv with Some n => negb (ts_min st) && (min_of (ts_node st) =? n) | None => false end) ||
-       (match dv_max dv with Some n => negb (ts_max st) && (max_of (ts_node st) =? n) | None => false end))
-  | _ => false
-  end.
-
-(* what the agreement between library and reference is claimed for: every statement in scope, none of
-   the two classes above met along the way (the states are those of the reference run) *)
+(* what the agreement between library and reference is claimed for: every statement in scope and none that
+   the library refuses, along the reference run *)
 Definition step_claimed (st : tstate) (dv : deviate) : bool :=
-  in_scope dv && negb (refused st dv) && negb (known_delete_absent_bound st dv).
+  in_scope dv && negb (refused st dv).
 
 Fixpoint claimed (resolvable : str -> bool) (ignore removable : bool) (st : tstate) (dvs : list deviate) : bool :=
   match dvs with
@@ -274,16 +258,15 @@ Variable SC : schema.
 Variable ignore : bool.
 
 (* one deviation: the target is looked up (Find is the subject of C17 and taken as given), the deviate
-   statements are applied in order, the outcome is put back.  [w]: whether min-/max-elements statements
-   are present on the target at this point *)
-Definition spec_deviation (F : forest) (m : module) (w : bool * bool) (d : str * list deviate) : option forest :=
+   statements are applied in order, the outcome is put back *)
+Definition spec_deviation (F : forest) (m : module) (d : str * list deviate) : option forest :=
   match Find SC F m (m_name m, []) (fst d) with
   | (None, _) => None                                         (* missing target *)
   | (Some p, F1) =>
     match locate_pos F1 p with
     | None => None
     | Some cur =>
-      match spec_apply_all is_builtin ignore (removable p) (init_state cur (fst w) (snd w)) (snd d) with
+      match spec_apply_all is_builtin ignore (removable p) (init_state cur) (snd d) with
       | None => None
       | Some st => Some (if ts_removed st then remove_target F1 p else replace_attrs F1 p (ts_node st))
       end
@@ -291,26 +274,24 @@ Definition spec_deviation (F : forest) (m : module) (w : bool * bool) (d : str *
   end.
 
 (* the deviations of a module, in the order written *)
-Fixpoint spec_module (F : forest) (m : module) (ws : list (bool * bool)) (devs : list (str * list deviate))
-  : option forest :=
+Fixpoint spec_module (F : forest) (m : module) (devs : list (str * list deviate)) : option forest :=
   match devs with
   | [] => Some F
   | d :: rest =>
-    match spec_deviation F m (hd (true, true) ws) d with
-    | Some F' => spec_module F' m (tl ws) rest
+    match spec_deviation F m d with
+    | Some F' => spec_module F' m rest
     | None => None
     end
   end.
 
 (* the whole deviation pass: the deviation statements of all modules in the order in which they are visited,
    each with the module it is written in *)
-Fixpoint spec_pass (F : forest) (js : list (module * (str * list deviate))) (ws : list (bool * bool))
-  : option forest :=
+Fixpoint spec_pass (F : forest) (js : list (module * (str * list deviate))) : option forest :=
   match js with
   | [] => Some F
   | j :: rest =>
-    match spec_deviation F (fst j) (hd (true, true) ws) (snd j) with
-    | Some F' => spec_pass F' rest (tl ws)
+    match spec_deviation F (fst j) (snd j) with
+    | Some F' => spec_pass F' rest
     | None => None
     end
   end.
